@@ -233,6 +233,41 @@ func vfSNCases() []vfSNCase {
 			}
 			vfSNCheckStopped(o, sys, "system with pending outbound retries (short Stop)")
 		}},
+		{"Start fails before the root exists (advertised address without a port), 10 systems", func(o *vfFaultOut) {
+			// the option accepts the address, the root reference rejects it: Start fails at the first link of its chain and
+			// stops the system itself. Whatever NewSystem started (the scheduler) has to be gone afterwards.
+			for i := 0; i < 10; i++ {
+				sys := NewSystem(quiet, vivid.WithActorSystemRemoting("127.0.0.1"))
+				err := sys.Start()
+				if err == nil {
+					// this tree accepts the address after all: nothing to observe about a failed Start
+					_, _ = vfSNStop(sys, 20*time.Second)
+					o.inc = "Start with an advertised address without a port succeeded"
+					return
+				}
+				if !errors.Is(err, vivid.ErrorActorSystemStartFailed) {
+					o.add("c07-not-a-state-machine", "Start(failing)", "a failing Start returned %v, want the start-failed error", err)
+				}
+				t0 := time.Now()
+				err2, ret := vfSNStop(sys, 5*time.Second)
+				if !ret {
+					o.add("c07-hang", "Stop after failed Start", "Stop after a failed Start did not return within 35 s")
+					return
+				}
+				if err2 != nil && !errors.Is(err2, vivid.ErrorActorSystemAlreadyStopped) {
+					o.add("c07-not-a-state-machine", "Stop after failed Start", "Stop after a failed Start returned %v, want nil or the already-stopped error", err2)
+				}
+				if err3 := sys.Start(); err3 == nil {
+					o.add("c07-not-a-state-machine", "Start after failed Start", "a second Start after a failed Start returned nil")
+				}
+				if d := time.Since(t0); d > 5*time.Second {
+					o.add("c07-rejection-blocks", "after failed Start", "the calls after a failed Start took %v", d)
+				}
+				if n, names := vfSNRegistered(sys); n > 0 {
+					o.add("c07-actors-alive-after-stop", "registry", "after a failed Start %d actors are registered: %v", n, names)
+				}
+			}
+		}},
 		{"cancelling the context of a connected system has the effect of Stop", func(o *vfFaultOut) {
 			addrA, addrB := vfFreeAddr(), vfFreeAddr()
 			ctx, cancel := context.WithCancel(context.Background())
@@ -354,7 +389,7 @@ func vfStartNodeProbe(addr string) (int, error) {
 }
 
 func TestVerif_startstopnet(t *testing.T) {
-	R := verifrt.NewReport("startstopnet", "real time, systems with remoting on loopback: Start / populate / Stop without a peer (and the address can be bound again at once); two connected systems with traffic in both directions stopped one after the other; Stop while deliveries to an unreachable peer are being retried (Stop(20s) within a small retry budget, and Stop(6s) far below the default retry budget of two unreachable peers: shutdown must give pending deliveries up, not wait for their retries); cancelling the context of a connected system; three concurrent Stops plus a cancel. Oracle (logical observations only): Stop returns nil once and within its timeout, later Start/Stop return the already-stopped error promptly, nothing stays registered, and once all systems of the case have stopped no goroutine with a frame of the library or of its scheduler is left (polled for up to 30 s). non-trivial+distinct = cases that ran to their end with at least one system stopped")
+	R := verifrt.NewReport("startstopnet", "real time, systems with remoting on loopback: Start / populate / Stop without a peer (and the address can be bound again at once); two connected systems with traffic in both directions stopped one after the other; Stop while deliveries to an unreachable peer are being retried (Stop(20s) within a small retry budget, and Stop(6s) far below the default retry budget of two unreachable peers: shutdown must give pending deliveries up, not wait for their retries); Start failing before the root exists (advertised address without a port; an occupied bind address does not make Start fail on this tree): whatever the constructor created must be gone; cancelling the context of a connected system; three concurrent Stops plus a cancel. Oracle (logical observations only): Stop returns nil once and within its timeout, later Start/Stop return the already-stopped error promptly, nothing stays registered, and once all systems of the case have stopped no goroutine with a frame of the library or of its scheduler is left (polled for up to 30 s). non-trivial+distinct = cases that ran to their end with at least one system stopped")
 	defer R.Flush()
 	cases := vfSNCases()
 	reps := 1
